@@ -96,6 +96,22 @@ pub fn run_ska_env(ctx: &Ctx, cwd: &Path, args: &[&str], env: &[(&str, &str)]) -
             }
         }
     }
+    // every eighth `ska build -f <list>` gets its list through a pipe (-f /dev/stdin), as `paste names paths | ska
+    // build -f /dev/stdin` or a process substitution would hand it over
+    let mut piped_list: Option<Vec<u8>> = None;
+    let mut args_owned: Vec<String> = args.iter().map(|a| a.to_string()).collect();
+    if sub == "build" && (ctx.counter.get() as usize + salt) % 8 == 5 {
+        if let Some(i) = args.iter().position(|a| *a == "-f") {
+            if let Some(l) = args.get(i + 1) {
+                let lp = if Path::new(l).is_absolute() { Path::new(l).to_path_buf() } else { cwd.join(l) };
+                if let Ok(d) = std::fs::read(&lp) {
+                    piped_list = Some(d);
+                    args_owned[i + 1] = "/dev/stdin".to_string();
+                }
+            }
+        }
+    }
+    let args: Vec<&str> = args_owned.iter().map(|a| a.as_str()).collect();
     let mut rewritten: Vec<String> = Vec::with_capacity(args.len());
     let mut i = 0;
     while i < args.len() {
@@ -128,7 +144,7 @@ pub fn run_ska_env(ctx: &Ctx, cwd: &Path, args: &[&str], env: &[(&str, &str)]) -
     }
     cmd.args(&rewritten)
         .current_dir(cwd)
-        .stdin(Stdio::null())
+        .stdin(if piped_list.is_some() { Stdio::piped() } else { Stdio::null() })
         .stdout(Stdio::piped())
         .stderr(Stdio::piped())
         .env("RUST_BACKTRACE", "0");
@@ -157,6 +173,14 @@ pub fn run_ska_env(ctx: &Ctx, cwd: &Path, args: &[&str], env: &[(&str, &str)]) -
             }
         }
     };
+    if let Some(data) = piped_list {
+        if let Some(mut si) = child.stdin.take() {
+            std::thread::spawn(move || {
+                use std::io::Write;
+                let _ = si.write_all(&data);
+            });
+        }
+    }
     let mut so = child.stdout.take().unwrap();
     let mut se = child.stderr.take().unwrap();
     let t_out = std::thread::spawn(move || {
